@@ -5,7 +5,7 @@ from .. import common as C
 
 COQ_FILES = ["Tree.v", "TreeProofs.v", "TreeConc.v", "TreeConcProofs.v", "TreeExec.v", "PropsTree.v"]
 THEOREMS = ["C08_children_first", "C08_events_once", "C08_own_order", "C08_children_listing", "C08_parent",
-            "C08_adoption_corner", "C08_order_oracle_holds_of_model", "C08_done_oracle_holds_of_model",
+            "C08_restart_keeps_children", "C08_adoption_corner", "C08_order_oracle_holds_of_model", "C08_done_oracle_holds_of_model",
             "C08_children_first_conc", "C08_signal_after_subtree_conc", "C08_no_hang", "C08_pinned_refuted",
             "C08_repaired_parent_waits"]
 RULE = ("supervision trees built by scripted actors on a real engine (public API; every node spawns its children from its "
@@ -15,14 +15,20 @@ RULE = ("supervision trees built by scripted actors on a real engine (public API
         "for Children()/Parent(), then the root poisoned; gated scenarios that hold the window of defect D11 open without "
         "sleeping (a node C is poisoned while the Stopped handler of a node G in C's subtree blocks on a channel; an ancestor "
         "P of C is poisoned; the harness goes on when P's context is done or P's pill is seen queued at C; only then G is "
-        "released), with further pills for C, G, P and the nodes between them while the gate is closed; random scenarios over "
+        "released), with further pills for C, G, P and the nodes between them while the gate is closed; restart scenarios "
+        "(children spawned ON DEMAND from a Receive under ids given by the scenario and, independently, the scripted children - "
+        "which only the first incarnation of a node spawns, so that a restart cannot re-adopt them -; a node panics with "
+        "restart budget left and comes up again on the same process; it is probed for Children()/Parent(), then stopped, "
+        "or made to panic again with the budget used up (MaxRestarts 1 or 2), or an ancestor is stopped); random scenarios over "
         "the same step alphabet (gates on one root-to-leaf path so that a held gate cannot starve another). Observed: one "
         "global stamp order of entering/leaving every Stopped handler and of every stop context seen done; inside every "
         "Stopped handler GetPID(self), GetPID(descendant), Children(), Parent(); Parent() at Started; per handle whether it "
         "was done on return and who of the subtree was still registered or not through Stopped when it was seen done; "
         "HANG after 8 s. A case is non-trivial when the scenario reaches a proof-relevant situation (depth >= 3, fan-out >= 3, "
         "held gate, stop for a stopping actor, ancestor stopped while a descendant is stopping, probe after a child stopped "
-        "on its own, crash, hard stop, self poison, stop for a stopped actor, several handles); distinct = distinct (tree, gates, steps)")
+        "on its own, crash, hard stop, self poison, stop for a stopped actor, several handles, restart, stop of a subtree that "
+        "holds a restarted actor, budget exhaustion after restarts, probe of a restarted parent, on-demand child); "
+        "distinct = distinct (tree, maxr, gates, steps)")
 TRUSTED_BASE = [
     "Coq 8.16.1 kernel; vm_compute (model replay and predicates on every case; the pinned-order witness); no native_compute",
     "axioms: none (Print Assumptions below)",
@@ -33,7 +39,9 @@ TRUSTED_BASE = [
     "steps (mutex); Children() is one atomic snapshot (its Len/ForEach split can only add a nil entry, which Poison treats as an "
     "unknown PID); Go's map iteration order is replaced by list order (the theorems hold for every order of the children: they "
     "quantify over all trees, i.e. over all orders of the kids lists); restarts, user messages and dead letters are left out of "
-    "TreeConc (queues hold pills only); context cancellation is idempotent",
+    "TreeConc (queues hold pills only; a restart touches no component of its state); in the children-map machine a restart is "
+    "no event at all (the Context outlives the incarnation: C08_restart_keeps_children), the harness checks exactly that on the "
+    "real engine; context cancellation is idempotent",
 ]
 ASSUMPTIONS = [
     "hand-written models: Tree.v (stop recursion of process.cleanup over a rose tree; children-map machine of context.go with "
@@ -83,6 +91,12 @@ class T:
         for k in ks:
             self._walk(k, i)
 
+    def add(self, p, c):
+        self.parent[c] = p
+        self.kids[c] = []
+        self.kids[p].append(c)
+        self.order.append(c)
+
     def closure(self, n):
         out = [n]
         for k in self.kids[n]:
@@ -120,6 +134,8 @@ def simulate(inp):
             if a != b and a not in t.closure(b) and b not in t.closure(a):
                 return None
     closed = set(gates)
+    maxr = inp.get("maxr", 0)
+    restarts = {}
     stopping, stopped, handles, waited = set(), set(), [], set()
     blocked = lambda n: any(g in closed for g in t.closure(n))
     for st in inp["steps"]:
@@ -130,6 +146,8 @@ def simulate(inp):
                 return None
             if op in ("self", "crash") and n in stopping:
                 return None
+            if op == "crash" and restarts.get(n, 0) != maxr:
+                return None     # a crash is a panic with the restart budget used up
             handles.append(n)
             stopping |= set(t.closure(n))
         elif op == "await":
@@ -153,6 +171,16 @@ def simulate(inp):
             # c is inside its cleanup (a gate at or below it was reached and is still closed), handle k stops an ancestor of c
             if not any(g in waited and g in closed for g in t.closure(c)) or handles[k] not in t.ancestors(c):
                 return None
+        elif op == "spawn":
+            p, c = st[1], st[2]
+            if p not in t.parent or p in stopping or c in t.parent or not (0 <= c < 4999):
+                return None
+            t.add(p, c)
+        elif op == "restart":
+            n = st[1]
+            if n not in t.parent or n in stopping or restarts.get(n, 0) >= maxr:
+                return None
+            restarts[n] = restarts.get(n, 0) + 1
         elif op == "probe":
             n = st[1]
             if n not in t.parent or n in stopping:
@@ -186,7 +214,7 @@ def nats(l):
     return C.clist([nid(x) for x in l])
 
 
-STEP_COQ = {"poison": "SPoison", "stop": "SStop", "self": "SSelf", "crash": "SCrash", "await": "SAwait",
+STEP_COQ = {"spawn": "SSpawn", "restart": "SRestart", "poison": "SPoison", "stop": "SStop", "self": "SSelf", "crash": "SCrash", "await": "SAwait",
             "waitgate": "SWaitGate", "release": "SRelease", "probe": "SProbe", "hold": "SHold"}
 KIND = {"poison": 0, "stop": 1, "self": 2, "crash": 3}
 
@@ -208,17 +236,18 @@ def obs_coq(o):
     ps = ["{| op_n := %s; op_answered := %s; op_kids := %s; op_parent := %s |}" % (
         nid(p["n"]), C.cbool(p["answered"]), nats(p["kids"]), onat(p["parent"])) for p in o["probes"]]
     return ("{| o_events := %s; o_xinfo := %s; o_started := %s; o_handles := %s; o_probes := %s; o_hang := %s; "
-            "o_gate_timeout := %s |}") % (C.clist(evs), C.clist(xs), C.clist(st), C.clist(hs), C.clist(ps),
-                                          C.cbool(o["hang"]), C.cbool(o["gate_timeout"]))
+            "o_gate_timeout := %s; o_rstops := %s |}") % (C.clist(evs), C.clist(xs), C.clist(st), C.clist(hs), C.clist(ps),
+                                                          C.cbool(o["hang"]), C.cbool(o["gate_timeout"]),
+                                                          C.cnat(min(o.get("rstops", 0), 4000)))
 
 
-CRASH_OBS = {"events": [], "xinfo": [], "started": [], "handles": [], "probes": [], "hang": True, "gate_timeout": False,
+CRASH_OBS = {"events": [], "xinfo": [], "started": [], "handles": [], "probes": [], "hang": True, "gate_timeout": False, "rstops": 0,
              "note": "harness process died: a panic escaped the engine"}
 
 
 # -------------------------------------------------------------- generators
-def case(tree, gates, steps, cls):
-    inp = {"tree": tree, "gates": gates, "steps": [list(s) for s in steps]}
+def case(tree, gates, steps, cls, maxr=0):
+    inp = {"tree": tree, "maxr": maxr, "gates": gates, "steps": [list(s) for s in steps]}
     assert well_formed(inp), inp
     return {"input": inp, "class": cls}
 
@@ -288,6 +317,54 @@ def gated_cases(tree, rng, limit):
     return out
 
 
+def restart_cases(tree, rng, limit):
+    """a restarted actor keeps its children: children spawned on demand (and the scripted ones, which only the first
+    incarnation spawns), a restart, probes, then a stop of the actor / of an ancestor / exhaustion of the restart budget"""
+    t = T(tree)
+    root = t.order[0]
+    nxt = max(t.order) + 1
+    out = []
+    nodes = list(t.order)
+    rng.shuffle(nodes)
+    for j, p in enumerate(nodes[:limit]):
+        maxr = 1 + (j % 2)
+        d1, d2, d3 = nxt, nxt + 1, nxt + 2
+        steps = [("spawn", p, d1)]
+        v = rng.randrange(4)
+        if v >= 1:
+            steps.append(("spawn", p, d2))
+        if v >= 2:
+            steps.append(("spawn", d1, d3))          # a grandchild on demand
+        steps.append(("restart", p))
+        if maxr == 2 and rng.random() < 0.5:
+            steps.append(("restart", p))
+        if v == 3:
+            steps += [("restart", d1), ("probe", d1)]  # a restarted child stays its parent's child
+        steps += [("probe", p), ("probe", d1)]
+        ending = (j // 2) % 3
+        used = sum(1 for s in steps if s[0] == "restart" and s[1] == p)
+        if ending == 0:
+            steps += [(rng.choice(("poison", "stop")), p), ("await", 0)]
+            if t.parent[p] is not None:
+                steps.append(("probe", t.parent[p]))
+        elif ending == 1:
+            # the restart budget runs out: the actor and its children are stopped (C06)
+            steps += [("restart", p)] * (maxr - used) + [("crash", p), ("await", 0)]
+            if t.parent[p] is not None:
+                steps.append(("probe", t.parent[p]))
+        else:
+            steps += [(rng.choice(("poison", "stop")), root)]
+        out.append(case(tree, [], steps, "restart_keeps_children", maxr=maxr))
+    # the scripted children alone (no on-demand spawn): a restart must not lose them either
+    for p in [n for n in nodes if t.kids[n]][:max(1, limit // 2)]:
+        steps = [("restart", p), ("probe", p), (rng.choice(("poison", "stop", "crash")), p)]
+        maxr = 1
+        if steps[-1][0] == "crash":
+            pass
+        out.append(case(tree, [], steps, "restart_scripted_children", maxr=maxr))
+    return out
+
+
 def random_tree(rng, depth, fan, budget=24):
     cnt = [0]
 
@@ -312,12 +389,19 @@ def random_case(rng, depth, fan):
     leafpath += t.ancestors(leafpath[0])
     gates = rng.sample(leafpath, min(len(leafpath), rng.choice((0, 1, 1, 2))))
     steps = []
-    inp = {"tree": tree, "gates": gates, "steps": steps}
+    maxr = rng.choice((0, 0, 1, 2))
+    inp = {"tree": tree, "maxr": maxr, "gates": gates, "steps": steps}
     nh = 0
+    nxt = max(t.order) + 1
+    live = list(t.order)
     for _ in range(rng.randint(1, 9)):
         r = rng.random()
-        if r < 0.45:
-            cand = (rng.choice(HANDLE_OPS), rng.choice(t.order))
+        if maxr and r < 0.12:
+            cand = ("spawn", rng.choice(live), nxt)
+        elif maxr and r < 0.24:
+            cand = ("restart", rng.choice(live))
+        elif r < 0.45:
+            cand = (rng.choice(HANDLE_OPS), rng.choice(live))
         elif r < 0.6 and nh:
             cand = ("await", rng.randrange(nh))
         elif r < 0.75 and gates:
@@ -330,11 +414,14 @@ def random_case(rng, depth, fan):
         if well_formed(inp):
             if cand[0] in HANDLE_OPS:
                 nh += 1
+            if cand[0] == "spawn":
+                live.append(nxt)
+                nxt += 1
         else:
             steps.pop()
     if not nh:
         steps.append(["poison", t.order[0]])
-    return case(tree, gates, steps, "random")
+    return case(tree, gates, steps, "random", maxr=maxr)
 
 
 class Tree(Part):
@@ -346,7 +433,9 @@ class Tree(Part):
     branch_names = {1: "depth>=3", 2: "fanout>=3", 3: "gated_Stopped_held_open", 4: "stop_for_a_stopping_actor",
                     5: "ancestor_stopped_while_descendant_is_stopping", 7: "probe_after_child_stopped_on_its_own",
                     8: "crash", 9: "hard_stop", 10: "self_poison", 11: "stop_for_a_stopped_actor", 12: "depth=4",
-                    13: "fanout=4", 14: "several_handles"}
+                    13: "fanout=4", 14: "several_handles", 15: "restart", 16: "stop_of_subtree_with_restarted_actor",
+                    17: "restart_budget_exhausted", 18: "probe_of_restarted_parent", 19: "child_spawned_on_demand",
+                    20: "restart_of_actor_with_children"}
 
     def generate(self, rng, tier):
         cases = []
@@ -356,6 +445,7 @@ class Tree(Part):
             cases += sequential_cases(tree, k)
             if T(tree).depth() >= 2:
                 cases += gated_cases(tree, rng, 3 if tier == "quick" else 12)
+            cases += restart_cases(tree, rng, 3 if tier == "quick" else 8)
         nrand = 150 if tier == "quick" else 3000
         for _ in range(nrand):
             cases.append(random_case(rng, 3 if tier == "quick" else 4, 3 if tier == "quick" else 4))
@@ -364,14 +454,15 @@ class Tree(Part):
                 tree = random_tree(rng, 4, 4, budget=40)
                 cases += sequential_cases(tree, rng.randrange(4))[:6]
                 cases += gated_cases(tree, rng, 4)
+                cases += restart_cases(tree, rng, 3)
             # the full 4 x 4 tree once
             full = number(shapes_full(4, 4))[0]
             cases.append(case(full, [], [("poison", 0)], "root_poison"))
         return cases
 
     def to_coq(self, inp, obs):
-        return "{| c_tree := %s; c_gates := %s; c_steps := %s; c_obs := %s |}" % (
-            tree_coq(inp["tree"]), nats(inp["gates"]), C.clist([step_coq(s) for s in inp["steps"]]), obs_coq(obs))
+        return "{| c_tree := %s; c_maxr := %s; c_gates := %s; c_steps := %s; c_obs := %s |}" % (
+            tree_coq(inp["tree"]), C.cnat(inp.get("maxr", 0)), nats(inp["gates"]), C.clist([step_coq(s) for s in inp["steps"]]), obs_coq(obs))
 
     def shrink(self, inp):
         out = []
@@ -398,13 +489,15 @@ class Tree(Part):
         t = T(inp["tree"])
         used = set(inp["gates"])
         for s in steps:
-            if s[0] in HANDLE_OPS or s[0] in ("waitgate", "release", "probe"):
+            if s[0] in HANDLE_OPS or s[0] in ("waitgate", "release", "probe", "restart", "spawn"):
                 used.add(s[1])
             if s[0] == "hold":
                 used.add(s[2])
         for n in t.order[1:]:
             if not t.kids[n] and n not in used:
                 out.append(dict(inp, tree=prune(inp["tree"], n)))
+        if inp.get("maxr", 0) > 0:
+            out.append(dict(inp, maxr=inp["maxr"] - 1))
         return [c for c in out if well_formed(c)]
 
 
